@@ -283,6 +283,7 @@ var mutants = []Mutant{
 	{"C11", "meta-line-writes-one-time-twice", "internal/entry.go", [][2]string{{"\t\tr.RequestedAt.Format(time.RFC3339Nano),\n", "\t\tr.ReceivedAt.Format(time.RFC3339Nano),\n"}}, "C11.21", "round 4"},
 	{"C09", "meta-line-read-from-other-column", "internal/entry.go", [][2]string{{"time.Parse(time.RFC3339Nano, string(parts[2]))", "time.Parse(time.RFC3339Nano, string(parts[1]))"}}, "C09.29", "round 4"},
 	{"C14", "file-gets-the-key-bytes", "store/fscache/fscache.go", [][2]string{{"\tif _, err := f.Write(entry); err != nil {", "\tif _, err := f.Write([]byte(key)); err != nil {"}}, "C14.28", "round 4"},
+	{"C04", "stored-value-recomputed-from-request", "internal/varymatcher.go", [][2]string{{"\t\tif reqValue != value {", "\t\tvalue = vm.hvn.NormalizeHeaderValue(field, reqValue)\n\t\tif reqValue != value {"}}, "C04.23", "round 4"},
 	{"C14", "listing-by-path-name", "store/fscache/fscache.go", [][2]string{{"\tc.dw = dirWalkerFunc(func(dir string, fn fs.WalkDirFunc) error {\n\t\treturn fs.WalkDir(c.root.FS(), \".\", func(name string, d fs.DirEntry, err error) error {\n\t\t\treturn fn(filepath.Join(dir, filepath.FromSlash(name)), d, err)\n\t\t})\n\t})\n", "\tc.dw = dirWalkerFunc(filepath.WalkDir)\n"}}, "C14.21", "D88"},
 	{"C19", "vary-name-as-sent", "internal/normalization.go", [][2]string{{"\t\t\tif !yield(storableValue(name), value) {", "\t\t\tif !yield(name, value) {"}}, "C19.15", "D89"},
 	{"C02", "directive-map-edited-in-place", "roundtripper.go", [][2]string{{"\t\tfreshnessReq = maps.Clone(ccReq)\n", "\t\tfreshnessReq, _ = ccReq, maps.Clone(ccReq)\n"}}, "C02.13", "wave 6: the parser's map is edited"},
